@@ -119,6 +119,57 @@ RequireDatasetUnchecked(t, p, val) ==
     ELSE IF Has(t, p) THEN Fail(t)
     ELSE SetDataset(t, p, val)
 
+(* Element write ds[k] = b.  Array values are the tokens w000 .. w111        *)
+(* (three-element integer arrays of zeros and ones); any other value refuses   *)
+(* element assignment.                                                        *)
+ArrTok == <<"w000", "w001", "w010", "w011", "w100", "w101", "w110", "w111">>
+IsArr(v)  == \E i \in 1..8 : ArrTok[i] = v
+ArrIdx(v) == CHOOSE i \in 1..8 : ArrTok[i] = v
+ElemSet(v, k, b) ==
+    LET n == ArrIdx(v) - 1  w == 2 ^ (2 - k)  old == (n \div w) % 2 IN
+    ArrTok[n - old * w + b * w + 1]
+SetElem(t, p, k, b) ==
+    IF IsData(t, p) /\ IsArr(NodeAt(t, p).v) /\ k \in 0..2 /\ b \in 0..1
+    THEN Ok((t \ {NodeAt(t, p)}) \cup {[NodeAt(t, p) EXCEPT !.v = ElemSet(@, k, b)]})
+    ELSE Fail(t)
+
+(* Named deviation of IH5 (IH5Dataset.copy_into_patch): the dataset is        *)
+(* re-created in the newest container with its value only, so on the single   *)
+(* tree the call amounts to dropping the attributes of the dataset.           *)
+DropAttrs(t, p) ==
+    IF IsData(t, p)
+    THEN Ok((t \ {NodeAt(t, p)}) \cup {[NodeAt(t, p) EXCEPT !.a = <<>>]})
+    ELSE Fail(t)
+
+(* ---- patch-aware bookkeeping ------------------------------------------------ *)
+(* IH5 allows element writes only on datasets that live in the newest container  *)
+(* and copy_into_patch only on those that do not (and whose path carries no       *)
+(* attribute carrier in the newest container yet).  Which datasets these are is   *)
+(* a function of the history since the last patch boundary:                       *)
+(*   fresh   = datasets created (set, copied, moved, copied into the patch) since *)
+(*   touched = older datasets whose attributes were changed since                 *)
+(* IH5Overlay checks these rules against the write path (FreshOK, TouchedOK);     *)
+(* Trace_IH5 uses them to judge recorded executions.                              *)
+DataPaths(t) == {n.p : n \in {m \in t : m.k = "d"}}
+NextFresh(fresh, e, ok, pre, post) ==
+    IF ~ok THEN fresh
+    ELSE CASE e.op \in {"set_dataset", "copy_into_patch"} -> fresh \cup {e.p}
+           [] e.op = "require_dataset" -> IF Has(pre, e.p) THEN fresh ELSE fresh \cup {e.p}
+           [] e.op = "delete" -> {q \in fresh : ~Under(e.p, q)}
+           [] e.op \in {"copy", "copyx"} -> fresh \cup {q \in DataPaths(post) : Under(e.q, q)}
+           [] e.op = "move" -> {q \in fresh : ~Under(e.p, q)} \cup {q \in DataPaths(post) : Under(e.q, q)}
+           [] OTHER -> fresh
+NextTouched(touched, fresh, e, ok, pre, patching) ==
+    IF ~ok THEN touched
+    ELSE CASE e.op \in {"set_attr", "del_attr"} ->
+                 IF patching /\ IsData(pre, e.p) /\ e.p \notin fresh THEN touched \cup {e.p} ELSE touched
+           [] e.op \in {"delete", "move"} -> {q \in touched : ~Under(e.p, q)}
+           [] OTHER -> touched
+PatchAllows(e, fresh, touched) ==
+    CASE e.op = "set_elem" -> e.p \in fresh
+      [] e.op = "copy_into_patch" -> e.p \notin fresh /\ e.p \notin touched
+      [] OTHER -> TRUE
+
 (* move = rename of the subtree.  Moving into the own subtree has no        *)
 (* reference behaviour (raw HDF5 detaches the subtree) and is excluded by   *)
 (* the drivers; the reference refuses it.                                   *)
@@ -148,6 +199,8 @@ Apply(t, e) ==
       [] e.op = "copyx"         -> CopyX(t, e.p, e.q, e.shallow, e.noattrs)
       [] e.op = "require_dataset" -> IF e.drv = "h5" THEN RequireDataset(t, e.p, e.v)
                                      ELSE RequireDatasetUnchecked(t, e.p, e.v)
+      [] e.op = "set_elem"      -> SetElem(t, e.p, e.k, e.b)
+      [] e.op = "copy_into_patch" -> DropAttrs(t, e.p)
       [] OTHER                  -> Ok(t)       \* observations and boundaries: stutter
 
 (* Observations derived from a tree.                                        *)
